@@ -1287,6 +1287,11 @@ class PX:
             model = self.model_for(fval.tag)  # alias-independent: match on the callee's value tag
             if model is not None:
                 text = fval.tag
+        if model is None and isinstance(fval, TypeRef):
+            for alias in ("t." + fval.short, fval.name):  # a type reached through a table or alias instead of `t.X`
+                if alias != text and self.model_for(alias) is not None:
+                    model, text = self.model_for(alias), alias
+                    break
         if model is not None:
             self._callee = _short(fval) if isinstance(fval, Sym) else None
             r = self.apply_model(model, text, args, kw, fr, node, awaited)
@@ -1315,7 +1320,8 @@ class PX:
             target = fval.func if isinstance(fval, Bound) else fval
             is_async = isinstance(target.node, ast.AsyncFunctionDef)
             if self.should_inline(fval, awaited, fr) and (awaited or not is_async):
-                self.emit("await" if awaited else "call", text, args, kw, node=node, frame=fr, extra="inlined")
+                # an inlined helper is not itself a suspension point: always recorded as a plain call
+                self.emit("call", text, args, kw, node=node, frame=fr, extra="inlined")
                 recv = fval.recv if isinstance(fval, Bound) else None
                 r = self.call_function(target, recv, args, kw, fr)
                 self.emit("ret", text, (r,), node=node, frame=fr)
@@ -1515,6 +1521,15 @@ class PX:
                         return args[2]
                     raise
             return Sym(f"getattr({_short(args[0])},{_short(args[1])})")
+        if n == "setattr" and len(args) == 3 and isinstance(args[1], str):
+            tgt, name, val = args
+            self.emit("write", f"{_short(tgt)}.{name}", (val,), node=node, frame=fr)
+            if isinstance(tgt, Obj):
+                tgt.fields[name] = val
+                tgt.fields[("__epoch__", name)] = self.epoch
+            elif isinstance(tgt, Sym):
+                self.symfields[(tgt.tag, name)] = val
+            return None
         if n == "hasattr":
             return Sym(f"hasattr({_short(args[0])},{_short(args[1])})")
         if n == "callable":
